@@ -29,3 +29,4 @@ def check(ctx):
     ctx.floor("TABLES-sv", 12)
     ctx.floor("PURE", 25)
     kernels.symbolic_operator_builder(ctx)
+    kernels.sparse_csr_from_coalesced(ctx)
